@@ -444,3 +444,53 @@ func verifC06_HeaderRules() {
 		}
 	}
 }
+
+// ---- Basic credentials kept in etcd (custom data) ----------------------------------------
+
+var vEtcdCreds = map[string]*etcdCredentials{}
+
+// vYAMLUnmarshalCreds replaces yaml.Unmarshal for etcdCredentials: the text is a key into a
+// table of decoded entries (YAML decoding is out of reach).
+func vYAMLUnmarshalCreds(in []byte, out interface{}) error {
+	c, ok := vEtcdCreds[string(in)]
+	if !ok {
+		return errors.New("yaml: cannot unmarshal")
+	}
+	*(out.(*etcdCredentials)) = *c
+	return nil
+}
+
+// verifC06_EtcdUsers: the user list built from etcd entries (real kvsToReader): an entry's user
+// name is its `username`, or its `key` when it has no username (the custom-data item key is
+// not a login name when a username is given); entries without a name or without a password
+// are skipped. What the htpasswd matcher is fed is exactly "<user>:<password>" per entry.
+func verifC06_EtcdUsers() {
+	key, user, pass := verifString("entry.key", 2), verifString("entry.username", 2), verifString("entry.password", 2)
+	verifAssume(vNoColonNL(key) && vNoColonNL(user) && vNoColonNL(pass))
+	vEtcdCreds["e1"] = &etcdCredentials{Key: key, User: user, Pass: pass}
+	r := kvsToReader(map[string]string{"/custom-data/credentials/1": "e1"})
+	text, _ := io.ReadAll(r)
+	want := ""
+	name := user
+	if name == "" {
+		name = key
+	}
+	if name != "" && pass != "" {
+		want = name + ":" + pass
+		verifCover("entry-used")
+		if user != "" && key != "" && user != key {
+			verifCover("entry-with-key-and-username")
+		}
+	}
+	verifAssert(string(text) == want, "etcd-entry-yields-username-else-key-with-its-password")
+}
+
+func vNoColonNL(s string) bool {
+	ok := true
+	for i := 0; i < len(s); i++ {
+		if s[i] == ':' || s[i] == '\n' {
+			ok = false
+		}
+	}
+	return ok
+}
